@@ -144,6 +144,19 @@ func (fr *Frame) execAppend(c *ssa.CallCommon, resT types.Type, st *State, r str
 		vc.assert(sImp(inplace, fmt.Sprintf("(forall ((q Int)) (! (=> (or (< q %s) (>= q %s)) (= (select %s q) (select %s q))) :pattern ((select %s q))))", start, end, row, oldS, row)))
 		// (b) reallocated: prefix copied
 		vc.assert(sImp(sNot(inplace), fmt.Sprintf("(forall ((q Int)) (! (=> (and (<= 0 q) (< q %s)) (= (select %s q) (select %s (+ %s q)))) :pattern ((select %s q))))", sMulC(s[2], w), row, oldS, s[1], row)))
+		// (a'/b') the same two facts element-wise, through the uninterpreted element addressing that contract
+		// expressions use (a consequence of (a)/(b); spares the solver the address arithmetic under quantifiers)
+		if isIfaceT(elem) {
+			lay := fr.l().layout(elem)
+			for ci := 0; ci < int(w) && ci < len(lay); ci++ {
+				if lay[ci] != srt {
+					continue
+				}
+				nw := app("select", row, vc.atTerm(int(w), ci, O, "k"))
+				od := app("select", oldS, vc.atTerm(int(w), ci, s[1], "k"))
+				vc.assert(fmt.Sprintf("(forall ((k Int)) (! (=> (and (<= 0 k) (< k %s)) (= %s %s)) :pattern (%s)))", s[2], nw, od, nw))
+			}
+		}
 		// (c) appended elements
 		if !srcIsString {
 			oldT := vc.rowOf(st, srt, t[0])
